@@ -549,7 +549,9 @@ func (g *G) Bool() X {
 		return g.leafBool()
 	}
 	defer g.deeper()()
-	switch g.intn(30, "boolkind") {
+	switch g.intn(32, "boolkind") {
+	case 30, 31:
+		return g.spineChain()
 	case 0, 1, 2:
 		return g.leafBool()
 	case 4:
@@ -583,6 +585,89 @@ func (g *G) Bool() X {
 	}
 }
 
+// spineChain draws a left-deep chain of binary operators that get looser towards the top
+// (innermost tight, outermost loose) over a parenthesised leftmost operand that binds looser
+// than the innermost operator but not looser than the outermost one:
+//
+//	( NOT a ) = b OR c        ( a + b ) * c = d AND e        ( a OR b ) = c AND d
+//
+// The parentheses of the leaf are required by the innermost operator only, which is the case a
+// serialiser gets wrong when it decides them against the wrong end of the chain.
+func (g *G) spineChain() X {
+	g.use("spine_chain")
+	type level struct {
+		p            int
+		op           string
+		kw           bool
+		boolOperands bool
+	}
+	levels := []level{{PMul, "*", false, false}, {PAdd, "+", false, false}, {PConcat, "||", false, false}, {PCmp, "=", false, false}, {PAnd, "AND", true, true}, {POr, "OR", true, true}}
+	inner := g.intn(4, "spine_inner")                   // 0..3: the innermost operator is *, +, || or =
+	outer := inner + 1 + g.intn(5-inner, "spine_outer") // strictly looser, ends with AND/OR or =
+	if outer < 3 {
+		outer = 3 // the chain is boolean-typed: it must reach a comparison at least
+	}
+	// leaf: binds looser than the innermost operator needs
+	var leaf X
+	switch {
+	case inner == 3: // comparison over a boolean operand
+		switch g.intn(3, "spine_leaf_bool") {
+		case 0:
+			leaf = g.notOf(g.leafBool())
+		case 1:
+			leaf = g.logical2("OR", POr)
+		default:
+			leaf = g.logical2("AND", PAnd)
+		}
+	default: // arithmetic / concat over a looser value expression
+		opts := []level{}
+		for _, l := range levels[inner+1 : 3] {
+			opts = append(opts, l)
+		}
+		if len(opts) == 0 { // inner is ||: only an arithmetic leaf binds tighter; use a unary sign-free sum in parens anyway
+			opts = []level{{PAdd, "+", false, false}}
+		}
+		l := opts[g.intn(len(opts), "spine_leaf_val")]
+		a, b := g.leafValue(), g.leafValue()
+		leaf = g.binary(a, sym(l.op), l.op, b, l.p)
+	}
+	cur := paren(leaf)
+	if leaf.P >= levels[inner].p {
+		cur = leaf // (the || case above) no parentheses needed
+	}
+	for i := inner; i <= outer; i++ {
+		l := levels[i]
+		var r X
+		if l.boolOperands {
+			r = g.at(g.leafBool(), l.p+10)
+		} else {
+			r = g.at(g.leafValue(), l.p+5)
+		}
+		sp := l.op
+		opTok := sym(l.op)
+		if l.kw {
+			sp = g.kwText(l.op)
+			opTok = []Tok{{sp, true}}
+		}
+		cur = g.binary(cur, opTok, sp, r, l.p)
+	}
+	return cur
+}
+
+// notOf is NOT over a simple operand.
+func (g *G) notOf(o X) X {
+	o = g.at(o, PNot)
+	return X{cat(g.kw("NOT"), o.T), &ast.UnaryExpression{Operator: ast.Not, Expr: o.N}, PNot}
+}
+
+// logical2 is a two-operand AND/OR over simple operands.
+func (g *G) logical2(op string, p int) X {
+	sp := g.kwText(op)
+	l := g.at(g.leafBool(), p)
+	r := g.at(g.leafBool(), p+10)
+	return g.binary(l, []Tok{{sp, true}}, sp, r, p)
+}
+
 func (g *G) logical(op string, p int) X {
 	g.use("logical_" + op)
 	sp := g.kwText(op)
@@ -603,6 +688,13 @@ func (g *G) not() X {
 
 // cmpOperand: value operand of a comparison or predicate (binds tighter than comparison).
 func (g *G) cmpOperand(right bool) X {
+	if g.depth < g.F.MaxDepth && g.chance(7, "bool_operand") {
+		// a boolean expression as comparison operand: (NOT a) = b, (x IN (1, 2)) = TRUE;
+		// it binds looser than the comparison, so it is always parenthesised
+		g.use("bool_operand_of_comparison")
+		defer g.deeper()()
+		return g.at(g.Bool(), PJSON)
+	}
 	v := g.Value()
 	if right && !g.F.CmpRhsArith && v.P < PCast && v.P != PPrimary {
 		// finding active: steer around non-primary right operands by parenthesising
